@@ -60,6 +60,8 @@ def check(repo, col, tier):
     col.rule("R-C19-scatter", "trainable values are scattered into the array space their indices were made for", 4)
     col.rule("R-C19-sentinel", "padded (-1) trainable indices reach a scatter only through mode='drop' + remap", 2)
     c10.scatter_sites(repo, col, cl, "R-C19-scatter", "R-C19-sentinel")
+    col.rule("R-C19-confine", "every edit through a view is confined to the rows in view (a mechanism is present exactly where it was inserted)", 25)
+    c11._confine(repo, col, "R-C19-confine")
     col.rule("R-C19-viewtrain", "view.delete_trainables() removes the view's trainables and nothing else", 5)
     c10.view_trainables(repo, col, "R-C19-viewtrain")
     c10.filter_rows(repo, col, "R-C19-viewtrain")
@@ -339,6 +341,53 @@ def _undo(repo, col):
         col.check(ok, R, dele, "delete_channel: the popped registry position is looked up in the base's channel list",
                   "all_channel_names.index(name) with names of self.base.channels",
                   f"popped position is {popi.short(80) if popi else None}", node=s.node)
+    # ---- polarity of the two selections (consulting the remaining channels is not enough: the SURVIVOR's rows / columns are kept)
+    def reduction(t, neg=False):
+        """(negated?, reduction term) of a row mask: ~M, np.logical_not(M), M.to_numpy() are looked through"""
+        while True:
+            if (t.op == "unary" and t.name == "Invert") or (t.op in ("call", "mcall") and t.name == "logical_not"):
+                neg, t = not neg, [a for a in t.args if a.op != "free"][0]
+            elif t.op == "mcall" and t.name in ("to_numpy", "astype", "flatten", "ravel") and t.args:
+                t = t.args[0]
+            elif t.op == "attr" and t.name == "values":
+                t = t.args[0]
+            else:
+                break
+        return (neg, t) if t.op == "mcall" and t.name in ("any", "all") else (neg, None)
+    s = released.get("params+states")
+    if s is not None and s.key.op == "tuple" and s.key.args[0].op == "sub":
+        neg, red = reduction(s.key.args[0].args[1])
+        if red is None:
+            col.unk(R, dele, "delete_channel: a parameter is cleared in the rows of the view where NO remaining channel that declares it is present",
+                    f"row selection {s.key.args[0].short(100)} not recognised", node=s.node)
+        else:
+            ok = neg and red.name == "any"
+            col.check(ok, R, dele, "delete_channel: a parameter is cleared in the rows of the view where NO remaining channel that declares it is present",
+                      "rows[~present(users).any(axis=1)]",
+                      f"rows are selected with {'~' if neg else ''}(...).{red.name}(): " +
+                      ("the rows where another channel still uses the parameter are the ones cleared (the survivor loses it, the deleted channel's rows keep it)"
+                       if not neg else "a row keeps the parameter only if ALL other declaring channels are present there"), node=s.node)
+    s = released.get("columns")
+    cols_t = s.value.kw.get("columns") if s is not None else None
+    if cols_t is not None:
+        cm = T.find(cols_t, lambda x: x.op == "comp" and len(x.args) >= 3 and
+                    T.find(x.args[2], lambda y: y.op == "attr" and y.name == "channels" and y.args[0].op == "attr" and y.args[0].name == "base") is not None)
+        if cm is None:
+            col.unk(R, dele, "delete_channel: the dropped columns are those NO remaining channel declares", "column filter not recognised", node=s.node)
+        else:
+            c, neg = cm.args[2], False
+            while c.op == "not" or (c.op == "unary" and c.name == "Not"):
+                neg, c = not neg, c.args[0]
+            verdict = None
+            if c.op in ("sub", "call", "mcall", "comp", "listacc") and not (c.op == "call" and c.name == "len"):
+                verdict = neg                       # `not users[col]`
+            elif c.op == "cmp" and len(c.args) == 2 and c.args[0].op == "call" and c.args[0].name == "len" and c.args[1].op == "const" and c.args[1].name == 0:
+                verdict = (c.name == "==") != neg   # len(users[col]) == 0
+            if verdict is None:
+                col.unk(R, dele, "delete_channel: the dropped columns are those NO remaining channel declares", f"filter {cm.args[2].short(80)}", node=s.node)
+            else:
+                col.check(verdict, R, dele, "delete_channel: the dropped columns are those NO remaining channel declares", "if not users[col]",
+                          "the columns that ARE still declared by a remaining channel are dropped (and the deleted channel's own ones stay)", node=s.node)
 
 
 def _classify(repo, col):
